@@ -438,7 +438,7 @@ func oracleFor(op *Sexp, res string) []string {
 		if res != "ok same" {
 			bad("registering a codec after a failed first use: %s", res)
 		}
-	case "descconc", "jconc", "regintern":
+	case "descconc", "jconc", "regintern", "entryorder", "reginterntag", "regmapkind":
 		if res != "ok" {
 			bad("%s: %s", op.head(), res)
 		}
